@@ -3,7 +3,7 @@
 From Coq Require Import ZArith List Bool Arith Lia.
 From Coq Require Import QArith.
 From RV Require Import Val Syntax Rho Offline Online Sat IA Pastify Jitter Units Support Lexer Parser Elab Dense DenseSem DenseMerge DenseOnlineMerge DenseOnlineFold DenseOnlineWin DenseEval DenseWin DenseVisitor DenseSat Explain ExtZ.
-From RV Require DenseOnlineMon DenseOnlineForest DenseOnlineReset ParserDeclOracle.
+From RV Require DenseOnlineMon DenseOnlineForest DenseOnlineReset ParserDeclOracle ParserRoundtrip ParserMin.
 Import ListNotations.
 
 Definition zformula := @formula ExtZVal.
@@ -35,6 +35,15 @@ Definition run_supported_pastified (k : nat) (p q : zformula) : bool :=
 
 Definition run_parse := parse_outcome.
 Definition run_lex := lex_string.
+
+(* C15, renderings with few parentheses: the text of an AST with the needed parentheses plus the extra pairs at the given paths;
+   the texts of the minimal rendering with one needed pair removed; the canonical dump of an AST *)
+Definition run_render (ex : list (list nat)) (e : sexpr) : String.string :=
+  ParserMin.toks_text (ParserMin.rgen (ParserMin.ex_of ex) e 0 None).
+Definition run_min_drops (e : sexpr) : list String.string := map ParserMin.toks_text (ParserMin.min_drops e).
+Definition run_wf (e : sexpr) : bool := ParserRoundtrip.wf e.
+Definition run_dump (du : kw) (e : sexpr) : option String.string :=
+  dump {| consts := []; subspecs := []; default_unit := du |} e.
 
 Definition run_dn (pk : zformula -> zformula -> pkind) (p : zformula) (W : list (list (Z * extz))) : list (Z * extz) :=
   compress (Dn ExtZArith pk p W).
